@@ -53,6 +53,7 @@ def run_check(prop, tier, seed):
     # ---- violations: replay twice, write artefacts --------------------------
     os.makedirs(REPLAY_DIR, exist_ok=True)
     lines = []
+    not_reproduced = []
     for cls, v in rep.violations.items():
         art = {'property': prop, 'class': cls, 'summary': jsonable(v['summary']),
                'count': v['count'], 'payload': v['payload'],
@@ -79,13 +80,39 @@ def run_check(prop, tier, seed):
                 art['replay_details_differ_between_runs'] = True
                 art['observed_second_replay'] = o2
             if not o1.get('violates', True):
-                _harness_error('violation %s/%s did not reproduce in a fresh '
-                               'replay: %r' % (prop, cls, o1))
+                # Engine C: the answer may depend on the calls that preceded it
+                # in the worker (a cache keyed too coarsely ...): re-run the
+                # case together with its predecessors in the product order
+                eng = v['payload'].get('_engine_c') if isinstance(v['payload'], dict) else None
+                again = None
+                if eng:
+                    from vlib.mc import enum as _enum
+                    again = _enum.rerun(eng[0], eng[1])
+                    again2 = _enum.rerun(eng[0], eng[1])
+                if again and again2:
+                    o1 = {'violates': True, 'history_dependent': True,
+                          'note': 'reproduces only after the preceding cases of the product '
+                                  '(the answer depends on earlier calls)',
+                          'problems': jsonable(again)}
+                else:
+                    not_reproduced.append((cls, o1))
+                    continue
             art['observed'] = o1
         path = os.path.join(REPLAY_DIR, '%s-%s.json' % (prop, digest([cls, v['payload']])))
         with open(path, 'w') as f:
             json.dump(art, f, indent=1, sort_keys=True)
         lines.append((cls, v, path))
+    # A disagreement seen during exploration that a plain replay on fresh
+    # objects does not show is never reported as a violation. If nothing at all
+    # reproduces the harness itself is suspect (exit 2); otherwise the
+    # reproducible classes are reported and the others are listed as notes.
+    if not_reproduced and not lines:
+        _harness_error('violation %s/%s did not reproduce in a fresh replay: %r'
+                       % (prop, not_reproduced[0][0], not_reproduced[0][1]))
+    for cls, o1 in not_reproduced:
+        rep.violations.pop(cls, None)
+        print('NOTE: class %s was seen during exploration but did not reproduce '
+              'in a fresh replay; not reported' % cls)
 
     # ---- evidence ------------------------------------------------------------
     c = rep.counters
